@@ -335,3 +335,18 @@ Definition convert_split_filtered rf (dbg : bool) (req : N -> bool) (units : lis
       let* offs := reserved rf dbg req units in
       convert_units (root_off u :: offs) [u] []
   end.
+
+(* the same with the attribute-by-attribute tolerant loop (no attribute aborts the conversion) *)
+Definition convert_split_filtered_tol rf (dbg : bool) (req : N -> bool) (units : list unitd)
+  : res (list (N * N)) :=
+  match units with
+  | [] => Err EMissingSplitUnit
+  | u :: _ =>
+      let* offs := reserved rf dbg req units in
+      convert_units_tol (root_off u :: offs) [u] []
+  end.
+
+(* the references of the DIEs of the converted (first) unit that are resolved although their target is never
+   emitted: reserved DIEs of ANOTHER unit of the .dwo section (new_with_offsets inserts every reachable offset) *)
+Definition split_foreign (u0 : unitd) (offs : list N) (y : N) : bool :=
+  mem_n y offs && negb (match to_unit_offset u0 y with Some _ => true | None => false end).
